@@ -217,7 +217,7 @@ def handleWProcs (j : Json) : R Json := do
     return jObj [("model", jObj [("kind", "raised"), ("out", jOutcome o)]),
                  ("spec", specPart [] implV)]
   | .ok (w, alive) =>
-    let pids := lst.eraseDups
+    let pids := dedup lst
     let mobs : Spec.WPObs := ⟨w.gone, alive, fun p => (w.objs p).returncode, w.cbLog, w.now⟩
     return jObj [
       ("model", jObj [("kind", "ok"), ("gone", jList jNat w.gone), ("alive", jList jNat alive),
